@@ -138,6 +138,11 @@ def run_case(case):
             V("stream.reset", f"after {op} the next draw from the process-wide stream is {x1!r} whatever the stream state was before the call", op=op)
         if sc1:
             V("stream.library_seed_call", f"{op} re-seeded the process-wide stream: seed({sc1[0][0]}) from {sc1[0][1]}", site=sc1[0][1].split(":")[0], value=sc1[0][0])
+    for res in (A1, N1):
+        if res["w"].soft_escapes:
+            e = res["w"].soft_escapes[0]
+            V("stream.unseeded_generator", f"library code draws from a generator seeded by the operating system: {e} ({len(res['w'].soft_escapes)} time(s)) - these draws do not depend on random_state", site=e.split(" from ")[-1].split(":")[0])
+            break
     nd = sum(r.n for r in A1["runs"])
     stats["draws"] = nd
     for w in (A1["w"], A2["w"], B["w"]):
